@@ -254,6 +254,10 @@ def read_to_disp():
             if isinstance(val, ast.Call) and _d(val.func) == "copy.deepcopy" and len(val.args) == 1 and _d(val.args[0]) == 'cv["validity_mask"]':
                 carried["validity_mask"] = "deepcopy"
                 continue
+            if (isinstance(val, ast.Call) and _d(val.func) == 'cv["validity_mask"].copy' and not val.args
+                    and [(k.arg, getattr(k.value, "value", None)) for k in val.keywords] == [("deep", True)]):
+                carried["validity_mask"] = "deepcopy"
+                continue
             if _d(val) == 'cv["validity_mask"]':
                 carried["validity_mask"] = "alias"
                 continue
@@ -286,9 +290,15 @@ def render_split(sp, name):
     ])
 
 
-def render_to_disp(td):
-    out = ["def toDisp (isMax : Bool) (ny nx nd : Nat) (disps : List Rat) (invalid_disparity : Val) (cv : Nat)",
-           "    (c0 : Store (List Fl)) (m0 : Store Val) : Store (List Fl) × Store Val × Nat :="]
+def render_to_disp(td, full=False):
+    """`full=False`: the cost volume and the map (`toDisp`); `full=True`: the whole returned dataset with the carried fields as
+    identities of the band / flag stores (`toDispDataset`)"""
+    if full:
+        out = ["def toDispDataset (isMax hasConf : Bool) (ny nx nd : Nat) (disps : List Rat) (invalid_disparity : Val)",
+               "    (cv conf mask : Nat) (c0 : Store (List Fl)) (m0 : Store Val) (b0 : Store (List Val)) (f0 : Store Nat) : DispDataset :="]
+    else:
+        out = ["def toDisp (isMax : Bool) (ny nx nd : Nat) (disps : List Rat) (invalid_disparity : Val) (cv : Nat)",
+               "    (c0 : Store (List Fl)) (m0 : Store Val) : Store (List Fl) × Store Val × Nat :="]
     kc, km = 0, 0
     dmap = None
 
@@ -331,9 +341,39 @@ def render_to_disp(td):
             out.append(f"  let m{km + 1} := m{km}.maskFill {dmap} {s[1]} invalid_disparity")
             km += 1
         elif s[0] == "copy_out":
-            out.append(f"  let m{km + 1} := (m{km}.copy {dmap}).1   -- cv[\"disp_indices\"]: a fresh array")
+            out.append(f"  let pm{km + 1} := m{km}.copy {dmap}   -- cv[\"disp_indices\"]: a fresh array")
+            out.append(f"  let m{km + 1} := pm{km + 1}.1")
+            out.append(f"  let disp_indices : Nat := pm{km + 1}.2")
             km += 1
-    out.append(f"  (c{kc}, m{km}, {dmap})")
+    if not full:
+        out.append(f"  (c{kc}, m{km}, {dmap})")
+        return "\n".join(out)
+    car = td["carried"]
+    if not any(s_[0] == "copy_out" for s_ in td["stmts"]):
+        _bad("to_disp", "cv[\"disp_indices\"] is not assigned a deep copy of the map")
+    if car.get("confidence_measure") == "alias":
+        out.append("  -- disp_map[\"confidence_measure\"] = cv[\"confidence_measure\"]: the SAME array")
+        out.append("  let b1 := b0")
+        out.append("  let confidence_measure : Option Nat := if hasConf then some conf else none")
+    elif car.get("confidence_measure") == "deepcopy":
+        out.append("  let pb := b0.copy conf")
+        out.append("  let b1 := if hasConf then pb.1 else b0")
+        out.append("  let confidence_measure : Option Nat := if hasConf then some pb.2 else none")
+    else:
+        _bad("to_disp", "the confidence measure is not handed to the result")
+    if car.get("validity_mask") == "deepcopy":
+        out.append("  -- disp_map[\"validity_mask\"] = copy.deepcopy(cv[\"validity_mask\"]): a fresh array")
+        out.append("  let pf := f0.copy mask")
+        out.append("  let f1 := pf.1")
+        out.append("  let validity_mask : Nat := pf.2")
+    elif car.get("validity_mask") == "alias":
+        out.append("  -- disp_map[\"validity_mask\"] = cv[\"validity_mask\"]: the SAME array")
+        out.append("  let f1 := f0")
+        out.append("  let validity_mask : Nat := mask")
+    else:
+        _bad("to_disp", "the validity mask is not handed to the result")
+    out.append(f"  {{ cvs := c{kc}, maps := m{km}, bands := b1, flags := f1, disparity_map := {dmap}, disp_indices := disp_indices,")
+    out.append("    confidence_measure := confidence_measure, validity_mask := validity_mask }")
     return "\n".join(out)
 
 
@@ -350,6 +390,9 @@ def render(splits, td, golden_lines) -> str:
     for name, sp in splits.items():
         lines += [f"/- {REL}:{CLS}.{sp['meth']} -/", render_split(sp, name), ""]
     lines += [f"/- {REL}:{CLS}.to_disp", td["source"].replace("-/", "- /").replace("/-", "/ -"), "-/", render_to_disp(td), ""]
+    lines += ["/- the same statements with the dataset fields the result carries: the confidence bands and the validity mask as",
+              "   identities of their own stores (shared or fresh, as the source says), `disp_indices` as the identity of the saved map -/",
+              render_to_disp(td, full=True), ""]
     lines.append("/-- dataset fields carried to the result without being modelled: how each is handed over -/")
     lines.append("def carried : List (String × String) := [" + ", ".join(f'("{k}", "{v}")' for k, v in sorted(td["carried"].items())) + "]")
     lines.append("")
